@@ -735,3 +735,111 @@ Proof.
   - apply mx_pd_labels_plain. eapply Forall_impl; [|exact H]. intros p [Hp _]. exact Hp.
   - eapply Forall_impl; [|exact H]. intros p [(He & _) Hv]. split; assumption.
 Qed.
+
+(* ------------------------------------------------------------------ timeout *)
+
+Definition mx_infix (m s : mx_bytes) : Prop := exists a b, s = a ++ m ++ b.
+
+Lemma mx_infix_app_r m s t : mx_infix m s -> mx_infix m (s ++ t).
+Proof. intros (a & b & ->). exists a, (b ++ t). rewrite <- !app_assoc. reflexivity. Qed.
+
+Lemma mx_infix_self_end s m : mx_infix m (s ++ m).
+Proof. exists s, []. rewrite app_nil_r. reflexivity. Qed.
+
+(* once SIGTERM has been sent the marker is in the output *)
+Definition mx_proc_inv (p : mx_proc) : Prop := mx_pr_sent_term p = true -> mx_infix mx_s_timeout (mx_pr_out p).
+Definition mx_proc_fired (p : mx_proc) : Prop := mx_pr_sent_term p = true /\ mx_infix mx_s_timeout (mx_pr_out p).
+
+Lemma mx_proc_finish_sent out w :
+  mx_infix mx_s_timeout out ->
+  fst (mx_proc_finish true out w) = 128%Z /\ mx_infix mx_s_timeout (snd (mx_proc_finish true out w)).
+Proof. intros H. destruct w; cbn; split; try reflexivity; try exact H. apply mx_infix_app_r. exact H. Qed.
+
+Lemma mx_do_events_fired p e :
+  mx_proc_fired p ->
+  match mx_do_events p e with
+  | inl p' => mx_proc_fired p'
+  | inr r => fst r = 128%Z /\ mx_infix mx_s_timeout (snd r)
+  end.
+Proof.
+  intros [Hs Hi]. unfold mx_do_events. rewrite Hs. cbn [negb andb orb]. rewrite andb_false_r.
+  destruct (mx_ev_past_hard e).
+  - apply mx_proc_finish_sent. exact Hi.
+  - destruct (mx_ev_read e).
+    + split; [reflexivity|]. cbn. apply mx_infix_app_r. exact Hi.
+    + apply mx_proc_finish_sent. apply mx_infix_app_r. exact Hi.
+Qed.
+
+Lemma mx_do_events_soft p e :
+  mx_proc_inv p -> mx_ev_past_soft e = true ->
+  match mx_do_events p e with
+  | inl p' => mx_proc_fired p'
+  | inr r => fst r = 128%Z /\ mx_infix mx_s_timeout (snd r)
+  end.
+Proof.
+  intros Hinv Hsoft. destruct (mx_pr_sent_term p) eqn:Hs.
+  - apply mx_do_events_fired. split; [exact Hs|apply Hinv; exact Hs].
+  - unfold mx_do_events. rewrite Hs, Hsoft. cbn [negb andb orb].
+    destruct (mx_ev_past_hard e).
+    + apply mx_proc_finish_sent. apply mx_infix_self_end.
+    + destruct (mx_ev_read e).
+      * split; [reflexivity|]. cbn. apply mx_infix_app_r, mx_infix_self_end.
+      * apply mx_proc_finish_sent. apply mx_infix_app_r, mx_infix_self_end.
+Qed.
+
+Lemma mx_do_events_inv p e p' : mx_proc_inv p -> mx_do_events p e = inl p' -> mx_proc_inv p'.
+Proof.
+  intros Hinv H. destruct (mx_ev_past_soft e) eqn:Hsoft.
+  - pose proof (mx_do_events_soft p e Hinv Hsoft) as X. rewrite H in X. intros _. apply X.
+  - destruct (mx_pr_sent_term p) eqn:Hs.
+    + pose proof (mx_do_events_fired p e (conj Hs (Hinv Hs))) as X. rewrite H in X. intros _. apply X.
+    + unfold mx_do_events in H. rewrite Hs, Hsoft in H. cbn in H. destruct (mx_ev_read e); inv H.
+      intros X. cbn in X. discriminate.
+Qed.
+
+Lemma mx_proc_run_fired p evs ex out :
+  mx_proc_fired p -> mx_proc_run p evs = Some (ex, out) -> ex = 128%Z /\ mx_infix mx_s_timeout out.
+Proof.
+  revert p. induction evs as [|e evs IH]; intros p Hf H; cbn in H; [discriminate|].
+  pose proof (mx_do_events_fired p e Hf) as X. destruct (mx_do_events p e) as [p'|r].
+  - apply (IH p' X H).
+  - inv H. exact X.
+Qed.
+
+(* the calls of DoEvents that did not end the process *)
+Fixpoint mx_proc_steps (p : mx_proc) (evs : list mx_pev) : option mx_proc :=
+  match evs with
+  | [] => Some p
+  | e :: r => match mx_do_events p e with inl p' => mx_proc_steps p' r | inr _ => None end
+  end.
+
+Lemma mx_proc_steps_inv p evs p' : mx_proc_inv p -> mx_proc_steps p evs = Some p' -> mx_proc_inv p'.
+Proof.
+  revert p. induction evs as [|e evs IH]; intros p Hinv H; cbn in H; [inv H; exact Hinv|].
+  destruct (mx_do_events p e) as [p1|] eqn:Hd; [|discriminate]. apply (IH p1); [|exact H].
+  apply (mx_do_events_inv p e p1 Hinv Hd).
+Qed.
+
+Lemma mx_finish_state ex out : mx_cr_state (mx_finish ex out) = mx_exit_to_state ex /\ mx_cr_exit (mx_finish ex out) = ex.
+Proof. unfold mx_finish. destruct (mx_parse_check_output _). split; reflexivity. Qed.
+
+(* whenever a call of DoEvents saw the soft deadline passed - whatever the plugin did afterwards (died from
+   SIGTERM, ignored it, trapped it and exited with any code inside or outside the grace period, left a
+   grandchild holding the pipe) - the result is exit status 128 = UNKNOWN and carries the marker *)
+Lemma mx_timeout_unknown pre e rest p' ex out :
+  mx_proc_steps mx_proc_init pre = Some p' -> mx_ev_past_soft e = true ->
+  mx_proc_run p' (e :: rest) = Some (ex, out) ->
+  ex = 128%Z /\ mx_infix mx_s_timeout out /\ mx_cr_state (mx_finish ex out) = 3%Z.
+Proof.
+  intros Hpre Hsoft Hrun.
+  assert (mx_proc_inv p') as Hinv by (apply (mx_proc_steps_inv mx_proc_init pre); [intros X; discriminate X|exact Hpre]).
+  cbn [mx_proc_run] in Hrun. pose proof (mx_do_events_soft p' e Hinv Hsoft) as X.
+  assert (ex = 128%Z /\ mx_infix mx_s_timeout out) as [-> Hi].
+  { destruct (mx_do_events p' e) as [p1|r]; [apply (mx_proc_run_fired p1 rest); assumption|inv Hrun; exact X]. }
+  split; [reflexivity|]. split; [exact Hi|]. rewrite (proj1 (mx_finish_state _ _)). reflexivity.
+Qed.
+
+(* and without the soft deadline ever passed the plugin's own exit status goes through *)
+Lemma mx_no_timeout_exit d c :
+  mx_proc_run mx_proc_init [{| mx_ev_past_soft := false; mx_ev_past_hard := false; mx_ev_read := MxReadEof d; mx_ev_wait := MxWaitExit c |}] = Some (c, d).
+Proof. reflexivity. Qed.
